@@ -2,6 +2,8 @@ import JunoModel.Common.Proto
 import JunoModel.C19.Model
 import JunoModel.C19.ModelUnits
 import JunoModel.C19.ModelProc
+import JunoModel.C19.ModelHash
+import JunoModel.C19.ModelCache
 /-!
 Line-protocol driver for the C19 model (`lake build c19drv`). Core Lean only.
 
@@ -48,6 +50,15 @@ Requests (answers):
            counters after the step; noroute also when a bound of `increaseTasks` is reached)
   pexpire <committee> <publisher> <root> <nonce> -> expired | none, then ` | <tasks> <publisherTasks>`
            (the subprocessor of this message key reaches its time-out)
+  leafpre <hex>                      -> <hex>   the bytes merkleLeafHash hands to SHA-256
+  nodepre <left hex> <right hex>     -> <hex>   the bytes merkleNodeHash hands to SHA-256
+  sigpayload <root> <committee> <nonce> -> <hex> the 95 bytes buildSignPayload returns
+  bpeers <local> <peers> <publisher> -> ok <peer,…> | panic | err:<class>   broadcastUnit's peer list BEFORE the shuffle
+  btargets <local> <peers>           -> ok <peer,…> | err:<class>           Scheduler.BroadcastTargets()
+  tcnew <size> <ttl>                 -> ok                      timecache.New (session cache, keys are numbers)
+  tcadd <now> <key>                  -> <start> <end> <size> <len(values)> <grow -|c|w>   TimeCache.Add at clock value <now>
+                                        (grow: regrowth did not run / its contiguous branch / its wrapped branch)
+  tcget <now> <key>                  -> <true|false> <start> <end> <size> <len(values)>   TimeCache.Get
 <pcfg> is four characters 0/1: wireGuard noPoison localFromPresent keyGuard.
 <sigok> of pstep is two characters: signature verifies, publisher id embeds a key.
 <cfg> is five characters 0/1: unpadGuard rootFromPresent shardingLeafProto validatorLeafProto nonceSet.
@@ -170,6 +181,7 @@ structure St where
   proc : TProc HTerm := TProc.empty
   bounds : Bounds := Bounds.real
   pending : Option (Bool × Bool × PUnit HTerm × Bytes) := none
+  tc : TCache Nat := TCache.new 1 1
 
 /-- RS parameter of one `create`/`construct` request: the answers of the real library are part of
 the request (the model does not compute GF(2^8) arithmetic). -/
@@ -262,6 +274,54 @@ def step (s : St) (line : String) : St × String :=
       else if g == "1" then (s, outStr bytesToHex (unpad true b))
       else (s, "bad-op")
     | none => (s, "bad-op")
+  | ["leafpre", h] =>
+    match fastHex? h with
+    | some b => (s, bytesToHex (leafPreimageGo b))
+    | none => (s, "bad-op")
+  | ["nodepre", l, r] =>
+    match hexToBytes? l, hexToBytes? r with
+    | some l, some r => (s, bytesToHex (nodePreimageGo l r))
+    | _, _ => (s, "bad-op")
+  | ["sigpayload", root, committee, nonce] =>
+    match hexToBytes? root, hexToBytes? committee, nonce.toNat? with
+    | some root, some committee, some nonce =>
+      if nonce < 2 ^ 64 then (s, bytesToHex (signPayloadGo root committee nonce)) else (s, "bad-op")
+    | _, _, _ => (s, "bad-op")
+  | ["bpeers", loc, peers, publisher] =>
+    match hexToBytes? loc, hexList? peers, hexToBytes? publisher with
+    | some loc, some peers, some publisher =>
+      match newScheduler loc peers with
+      | .ok sc =>
+        match broadcastPeersGo sc.peers sc.localId publisher with
+        | some l => (s, "ok " ++ hexList l)
+        | none => (s, "panic")
+      | .error e => (s, "err:" ++ schedErr e)
+    | _, _, _ => (s, "bad-op")
+  | ["btargets", loc, peers] =>
+    match hexToBytes? loc, hexList? peers with
+    | some loc, some peers =>
+      match newScheduler loc peers with
+      | .ok sc => (s, "ok " ++ hexList (broadcastTargetsGo sc.peers sc.localIdx))
+      | .error e => (s, "err:" ++ schedErr e)
+    | _, _ => (s, "bad-op")
+  | ["tcnew", size, ttl] =>
+    match size.toNat?, ttl.toNat? with
+    | some size, some ttl => ({ s with tc := TCache.new size ttl }, "ok")
+    | _, _ => (s, "bad-op")
+  | ["tcadd", now, key] =>
+    match now.toNat?, key.toNat? with
+    | some now, some key =>
+      let t1 := s.tc.removeExpired now
+      let grow := if t1.almostFull then (if t1.start < t1.stop then "c" else "w") else "-"
+      let t := s.tc.add now key
+      ({ s with tc := t }, s!"{t.start} {t.stop} {t.size} {t.values.length} {grow}")
+    | _, _ => (s, "bad-op")
+  | ["tcget", now, key] =>
+    match now.toNat?, key.toNat? with
+    | some now, some key =>
+      let (t, ans) := s.tc.get now key
+      ({ s with tc := t }, s!"{ans} {t.start} {t.stop} {t.size} {t.values.length}")
+    | _, _ => (s, "bad-op")
   | ["npow2", n] =>
     match n.toNat? with
     | some n => (s, toString (nextPow2 n))
